@@ -15,11 +15,11 @@ RULE = ("x+y, x-y, x*y with default (optimal) sizing vs exact integer/Fraction a
         "through operators, fxpmath.add/sub/mul and np.add/subtract/multiply, raw and repr methods; (b) Hypothesis format pairs up to 52 bits with result word <=53, codes at the four extreme corners +-1 and random; "
         "(c) random +,-,* expression trees of depth <=4 over leaves of <=8 bits evaluated in Fractions. "
         "Non-trivial = an operand at an extreme code, or mixed signedness, or unequal n_frac; distinct = distinct (formats, codes, op, route, method).")
-ASSUMPTIONS = ['operands are created from raw codes (no scale/bias, no flags set)', 'result word <= 53 bits (wider results are C19)']
+ASSUMPTIONS = ['operands are created from raw codes (no scale/bias); in the class dirty-operand their status record already carries overflow and underflow from earlier writes', 'result word <= 53 bits (wider results are C19)']
 EXHAUSTIVE = False    # the whole quantifier is not enumerated; complete sub-domains are listed in EXHAUSTIVE_SUBDOMAINS
 EXHAUSTIVE_SUBDOMAINS = {'quick': ['all format pairs n_word<=4 (n_frac -1..n_word+1) x all code pairs x {+,-,*} via operators (raw); n_word<=3 additionally via fxpmath.* / numpy ufuncs and repr method'],
                          'thorough': ['all format pairs n_word<=4 x all code pairs x 3 ops x 3 routes x 2 methods; n_word<=5 via operators']}
-REQUIRED_CLASSES = {'extreme': 1000, 'mixed-sign': 1000, 'unequal-frac': 1000, 'tree': 100}
+REQUIRED_CLASSES = {'extreme': 1000, 'mixed-sign': 1000, 'unequal-frac': 1000, 'tree': 100, 'dirty-operand': 500}
 
 OPS = ('add', 'sub', 'mul')
 ROUTES = ('operator', 'fxpmath', 'numpy')
@@ -69,6 +69,19 @@ def check_pair(ctx, case):
                   rounding=mx[0], overflow=mx[1])
             y = F(np.array(kys, dtype=object if fy[1] > 62 else np.int64), fy[0], fy[1], fy[2], raw=True)
         kx0, ky0 = C.codes(x), C.codes(y)
+        dirty = case.get('dirty')
+        if dirty:
+            # operands whose own status record already shows an overflow / underflow from an earlier write (and which hold valid
+            # codes again): the result of an exact operation must still come back with clean overflow / underflow flags
+            for obj, which in ((x, 'x'), (y, 'y')):
+                if which in dirty:
+                    keep = np.array(obj.val, copy=True)
+                    olo, ohi = M.rng(obj.signed, obj.n_word)
+                    obj.set_val(ohi + 1, raw=True)
+                    obj.set_val(olo - 1, raw=True)
+                    obj.set_val(keep, raw=True)
+                    if not (obj.status['overflow'] and obj.status['underflow']):
+                        raise AssertionError('harness: operand status not dirty')
         z = apply_op(op, route, x, y)
         return x, y, z, kx0, ky0
     ok, res = ctx.guard(case, do, sig_prefix=sig + '/')
@@ -233,17 +246,19 @@ def st_corner_case(draw):
         return sorted(ks)
     return {'check': 'pair', 'fx': list(fx), 'fy': list(fy), 'op': op, 'route': draw(st.sampled_from(ROUTES)),
             'method': draw(st.sampled_from(['raw', 'raw', 'repr'])), 'kx': corner(fx), 'ky': corner(fy),
-            'mx': list(draw(C.st_modes())), 'scalar': draw(st.booleans())}
+            'mx': list(draw(C.st_modes())), 'scalar': draw(st.booleans()), 'dirty': draw(st.sampled_from([None, None, 'x', 'y', 'xy']))}
 
 
 def body_corner(ctx, case):
     fx, fy = tuple(case['fx']), tuple(case['fy'])
-    key = ('pair', fx, fy, case['op'], case['route'], case['method'], tuple(case['kx']), tuple(case['ky']), case['scalar'])
+    key = ('pair', fx, fy, case['op'], case['route'], case['method'], tuple(case['kx']), tuple(case['ky']), case['scalar'], case.get('dirty'))
     ctx.cls('extreme')
     if fx[0] != fy[0]:
         ctx.cls('mixed-sign')
     if fx[2] != fy[2]:
         ctx.cls('unequal-frac')
+    if case.get('dirty'):
+        ctx.cls('dirty-operand')
     ctx.nontrivial(key)
     ctx.sample(case, True)
     check_pair(ctx, case)
